@@ -25,9 +25,9 @@ META = {
     'assumptions': ['structural consistency as defined by C09 (mtv/agraph.check_invariants)'],
     'shards': {'quick': 8, 'thorough': 16},
     'quotas': {
-        'quick': {'prunes-compared': 5000, 'class:adjacent-prunable-run>=2': 500, 'class:adjacent-prunable-run>=4': 100,
-                  'class:prunable-compromised': 200, 'class:prunable-entry-point': 100, 'class:double-edge-at-prunable': 100,
-                  'class:labels-from-analysis': 300, 'class:generated-graph': 50, 'class:nothing-to-prune': 100,
+        'quick': {'prunes-compared': 2000, 'class:adjacent-prunable-run>=2': 500, 'class:adjacent-prunable-run>=4': 100,
+                  'class:prunable-compromised': 200, 'class:prunable-entry-point': 100, 'class:double-edge-at-prunable': 90,
+                  'class:labels-from-analysis': 100, 'class:generated-graph': 40, 'class:nothing-to-prune': 100,
                   'class:non-or-and-with-false-label-kept': 200},
         'thorough': {'prunes-compared': 600000, 'class:adjacent-prunable-run>=4': 10000, 'class:generated-graph': 5000},
     },
